@@ -359,7 +359,10 @@ def documented_names(spec):
     for f in spec.funcs:
         for cname, nd, tt in spec.c_names(f):
             ps = list(f.params) + [p for p, _ in f.defaults[:nd]]
-            sig = tuple(((tt if p.t == "T" else p.t) if p.fam in ("native", "class") else TM_NAME[p.fam], MODE[p.mode]) for p in ps)
+            tm = spec.tmap(f, tt)
+            sig = tuple((tm.get(p.t, p.t) if p.fam in ("native", "class") else TM_NAME[p.fam], MODE[p.mode]) for p in ps)
+            if f.template:   # instantiations may differ in the result type only
+                sig += (("result", tm.get(f.ret[1], f.ret[1]) if len(f.ret) > 1 else "void"),)
             out[(f.cls or "", f.kind if f.kind != "func" else f.name, sig)] = cname
     return out
 
@@ -368,6 +371,8 @@ def node_key(cls, node):
     ast = node.ast
     kind = "ctor" if ast.is_ctor() else ("dtor" if ast.is_dtor() else ast.name)
     sig = tuple((a.typemap.name, a.get_indirect_stmt()) for a in ast.params)
+    if node._generated == "cxx_template":
+        sig += (("result", ast.typemap.name),)
     return (cls.name if cls is not None else "", kind, sig)
 
 
@@ -378,7 +383,7 @@ def check_documented_names(ctx, spec, lib, shapes):
         if node.wrap.c and node.fmtdict.inlocal("C_name"):
             got[node_key(cls, node)] = node.fmtdict.C_name
     sh = ",".join(sorted(spec.overload_shapes())) or "-"
-    for s in spec.overload_shapes():
+    for s in spec.overload_shapes() + spec.variant_shapes():
         shapes[s] = shapes.get(s, 0) + 1
     for k, cname in sorted(want.items()):
         ctx.count(1)
